@@ -246,7 +246,6 @@ Proof.
         destruct (N.ltb_spec q e).
         { destruct B2 as [B2l B2g]; [lia|]. rewrite A1 in B2l, B2g by lia. split.
           - rewrite B2l, Hb1. destruct (N.leb_spec start q), (N.ltb_spec q e); cbn [andb]; try lia; auto.
-            f_equal. f_equal. lia.
           - intro i. rewrite B2g, Hb1, rget_rdrop.
             assert (n * tl <= q * tl) by nia.
             destruct (N.ltb_spec i tl), (N.leb_spec (o + wp + 0) (q * tl + i)), (N.leb_spec o (q * tl + i)),
